@@ -21,7 +21,7 @@ META = {
     "engine": "crash-time-monitor",
     "technique": "runtime monitor: crash / recursion / CPU-time monitors around the real indexing paths (pool start-up, didOpen, typed didChange) on prefixes, mutations, token soup and stressors",
     "text": "Hostile document texts (every kind the property names) are indexed by the real server through three routes while monitors watch for failures reported to the client, exceptions at hooked sites, swallowed RecursionErrors, CPU time and hangs. Held on K texts per generator class; 'all strings' is sampled. Also: the complete list of ~52 000 single-token mutations of ~120 statement templates (one slice per case), macro-expansion stressors, numeric pp_defs, and in-line edits of an open document after each of which the server's index of the file is compared with a from-scratch parse of its own buffer.",
-    "note": "trusted: monitors only (no oracle of correct output is needed); time budget is CPU seconds max(2, 0.02*lines) with isolated re-run of suspects; pp_defs values are strings (documented type)",
+    "note": "trusted: monitors only (no oracle of correct output is needed); time budget is CPU seconds max(2, 0.02*lines) with isolated re-run of suspects; pp_defs values are strings, numbers or booleans",
 }
 RULE = ("document texts: line- and character-prefixes of the repository samples, random mutations (delete/duplicate/swap lines, insert "
         "punctuation, truncate, paste directives), token soup over ~150 keywords/punctuation/directives with fixed-form column markers, "
